@@ -98,8 +98,37 @@ def parseNamed (s : String) : Option (String × List Int) :=
   | [nm, v] => do let v ← parseIntList? v; pure (nm, v)
   | _ => none
 
+
+/-- exact rational square root (`none` unless numerator and denominator are perfect squares) -/
+def ratSqrt? (q : Rat) : Option Rat :=
+  if q < 0 then none else
+    let n := Nat.sqrt q.num.toNat
+    let d := Nat.sqrt q.den
+    if n * n = q.num.toNat && d * d = q.den then some ((n : Int) / (d : Int)) else none
+
+/-- `sqrt` / `max` on real rationals for the forward map of the PSD square root; an inexact root is marked by `-1`
+(the handler then answers `inexact`, it never rounds) -/
+instance : Channel.Analytic QI :=
+  ⟨fun x => x, fun x => ⟨(ratSqrt? x.re).getD (-1), 0⟩, fun a b => ⟨if a.re < b.re then b.re else a.re, 0⟩⟩
+
+def handleSqrtmFwd (m r : Nat) (evl : List Int) (v : Array GInt) : String := Id.run do
+  if evl.length ≠ m || v.size ≠ m * m then return "bad-op"
+  let eA := evl.toArray
+  let ev : Nat → QI := fun a => ⟨(eA.getD a 0 : Int), 0⟩
+  let roots := (List.range m).map fun a => storedRoots r ev a
+  if roots.any (fun x => x.re < 0) then return "inexact"
+  let V : Nat → Nat → QI := fun i j => qiOfG (v.getD (i * m + j) 0)
+  let ret := (List.range m).flatMap fun i => (List.range m).map fun j => psdSqrtmForward m V r ev i j
+  return s!"{qiListStr roots}|{qiListStr ret}"
+
 def handleExtra (args : List String) : Option String :=
   match args with
+  | ["sqrtmfwd", m, r, evl, v] => some <| Id.run do
+      let some m := m.toNat? | return "bad-op"
+      let some r := r.toNat? | return "bad-op"
+      let some evl := parseIntList? evl | return "bad-op"
+      let some v := arr? v | return "bad-op"
+      return handleSqrtmFwd m r evl v
   | ["handoff", shapes, init, theta, grads] => some <| Id.run do
       -- shapes `name:req:len|…` (registration order), init `name=ints|…` (current values), theta, grads `name=ints|…` (trainable only)
       let some sh := (shapes.splitOn "|").mapM parseShape | return "bad-op"
@@ -176,10 +205,11 @@ def handle (args : List String) : String :=
         match repSlot gs i, slotOf gs i with
         | some sl, some (nm, row) => if sl = i then some (i, nm, row) else none
         | _, _ => none)
-      let some tab : Option (ParamTable GInt) := reps.mapM fun e => do
+      let tab? : Option (ParamTable GInt) := reps.mapM (fun e => do
         let t ← tens.find? fun t => t.1 == e.2.1
         let sz := 2 ^ t.2.1 * 2 ^ t.2.1
-        pure (t.2.1, e.1, t.2.2.2.extract (e.2.2 * sz) ((e.2.2 + 1) * sz)) | return "bad-op"
+        pure (t.2.1, e.1, t.2.2.2.extract (e.2.2 * sz) ((e.2.2 + 1) * sz)))
+      let some tab := tab? | return "bad-op"
       let Θ : Params GInt := paramsOf tab
       let zeroTab : ParamTable GInt := tab.map fun e => (e.1, e.2.1, Array.replicate e.2.2.size 0)
       -- guard of `driver_backward_eq`
